@@ -140,7 +140,7 @@ class Contract:
     def __init__(self, target, requires=(), ensures=(), modifies=(), types=None, returns=None, inline=False,
                  loop_invariants=None, raises=(), allocates=False, assumed=False, hints=(), ghost_updates=(),
                  props=(), decreases=None, pure=False, note="", cases=None, call_assumes=None, at_call=None,
-                 expect_calls=None):
+                 expect_calls=None, lemma_after=None):
         self.target = target
         self.requires = [self._lab(x, "pre", k) for k, x in enumerate(requires)]
         self.ensures = [self._lab(x, "post", k) for k, x in enumerate(ensures)]
@@ -159,6 +159,7 @@ class Contract:
         self.call_assumes = call_assumes or {}    # callee -> clauses ASSUMED (not proved) just before that call; listed as assumptions
         self.at_call = at_call or {}              # callee -> clauses PROVED just before that call (old = function entry)
         self.expect_calls = expect_calls or {}    # callee method name -> exact number of calls on every normally returning path
+        self.lemma_after = lemma_after or {}      # callee -> clauses ASSUMED right after that call returns (`result` bound); listed as assumptions
         self.when = None
         self.case_name = None
         self.cases = []
@@ -171,7 +172,7 @@ class Contract:
         c = Contract(self.target, requires=[], ensures=[], modifies=list(self.modifies) + list(cs.get("modifies", [])),
                      types=self.types, returns=self.returns, loop_invariants=self.loop_invariants,
                      raises=self.raises + list(cs.get("raises", [])), allocates=self.allocates or cs.get("allocates", False),
-                     assumed=self.assumed, props=self.props, call_assumes=self.call_assumes,
+                     assumed=self.assumed, props=self.props, call_assumes=self.call_assumes, lemma_after=self.lemma_after,
                      at_call={**self.at_call, **cs.get("at_call", {})}, expect_calls={**self.expect_calls, **cs.get("expect_calls", {})})
         c.requires = list(self.requires) + [self._lab(x, "pre-" + cs["name"], k) for k, x in enumerate(cs.get("requires", []))]
         c.ensures = list(self.ensures) + [self._lab(x, "post-" + cs["name"], k) for k, x in enumerate(cs.get("ensures", []))]
@@ -292,6 +293,8 @@ class Executor:
     def heap_set(self, st, name, arr, hint=None, fresh_obj=False, preds=None):
         cur = self.heap_get(st, name)
         st.heap[name] = arr
+        if not fresh_obj and name != "$alive":
+            st.known["$mut"] = st.known.get("$mut", 0) + 1      # a write to a pre-existing object
         if self.writes is not None:
             self.writes.add(name)
             at = None
